@@ -1,7 +1,7 @@
 """C01 -- returned fields satisfy the documented governing PDEs wherever smooth.
 
-Mode L: every parameter vector within K deviations of the default (K=1 quick, K=2 thorough; Guderley K=1 over the five
-memoised (geometry, gamma) pairs) of Noh, Noh2, Noh2Cog, the twenty Coggeshall solutions, EHEP, both 1D Riemann solvers
+Mode L: every parameter vector within K deviations of the default (K=1 quick, K=2 thorough; Guderley over the five
+memoised (geometry, gamma) pairs x rho0) of Noh, Noh2, Noh2Cog, the twenty Coggeshall solutions, EHEP, both 1D Riemann solvers
 (state lattice + the tabulated problems and their mirror images), Sedov and Guderley; every time of a lattice inside the
 validity interval; 12 lattice points in every smooth region located from the returned fields.
 
@@ -39,9 +39,10 @@ CLAIM = ("Every parameter vector within K deviations of the default (K=1 quick, 
          "open set of (r,t) for a whole slice of parameter space, which lattice enumeration plus differentiation exposes.")
 LEVEL_NOTE = ("trusted: numpy, the transcription of the documented equations in props/C01.py, the locus detector of xpmc/x_C01_fd.py, the "
               "memoised Guderley exponent (keyed by the hash of eexp.py); assumed: defects confined to parameter values, times or radii "
-              "between lattice values are not seen; a residual below the class tolerance (A 1e-6/1e-5, B 1e-3, C 3e-2) is not seen")
-BOUND = {"quick": "K=1 deviations from the default vector for every family (Riemann tables: K=2 = all problems x mirror)",
-         "thorough": "K=2 deviations for every family (Guderley K=2 over pair x rho0 = full product)"}
+              "between lattice values are not seen; a residual below the class tolerance (A 1e-6 / 1e-5 with second derivatives, B 1e-5, C 1e-2; Sedov 1e-2, and 0.2 where rho/rho_shock < 1e-2) is not seen")
+BOUND = {"quick": "K=1 deviations from the default vector for every family (Riemann tables: K=2 = all problems x mirror); 2-4 times per "
+                  "family (Sedov 2, Guderley one before and one after the reflection)",
+         "thorough": "K=2 deviations for every family (Guderley K=2 over pair x rho0 = full product); 2-4 times per family (Sedov 3, Guderley 4)"}
 RULE = ("tasks = all parameter vectors with <=K deviations from the default over each family's alphabet (heavy families split per time); "
         "per vector every lattice time x 12 lattice points per smooth region between the loci located from the fields; an evaluation is one "
         "public solver call; a case (family, vector, time, region, point) is non-trivial when at least two terms of at least one equation "
@@ -52,13 +53,22 @@ ASSUMPTIONS = [
     "rho De/Dt + p div u + div F = 0 (the docstring's first term T/(gamma-1) is a misprint of Gamma/(gamma-1))",
     "Coggeshall solutions documented without any conduction parameter (Cog1-7, 19-21, Noh2Cog) are checked with F = 0; those documented "
     "without lambda0 (Cog8, 9, 11, 12, 18) are checked for the hydrodynamic part and for div F = 0 separately",
-    "a stencil is kept inside one smooth region: loci (jumps, kinks) are located from the returned fields at t and t +- 2*k_max; at most "
-    "the documented number of loci per profile is excluded; a time level whose number of loci changes inside the time stencil is skipped "
-    "and counted",
+    "a stencil is kept inside one smooth region: loci (jumps, kinks) are located from the returned fields at t and t +- 2*k_max and "
+    "matched by proximity; the hull of each locus over the time stencil is excluded, a locus seen at only some of the three times is "
+    "excluded with the largest displacement seen (counted); at most the documented number of loci per profile is excluded (12 for the "
+    "general-EOS solver, whose p table adds interpolation kinks where it is coarse)",
     "a point is reported only if its residual exceeds the tolerance at every usable step size and so does a neighbouring lattice point of "
     "the same region (isolated candidates are counted, not alarmed on)",
-    "Sedov (3001-point table) and the general-EOS Riemann solver (x grid + p table) are class C: steps >= 8 internal cells, tolerance 3e-2; "
-    "Sedov's documented untrusted small-radius region (fields exactly linear in r from the origin) is excluded only where rho/rho_shock < 1e-3",
+    "Sedov (3001-point table) and the general-EOS Riemann solver (2001-point x grid + 501-point p table, as in the shared catalogue) are "
+    "class C: steps >= 8 internal cells, tolerance 1e-2; GenEOS fan points where the p table does not resolve the fan (p < 33 dp) are counted, "
+    "not judged; Sedov's documented untrusted small-radius region (fields exactly linear in r from the origin) is excluded only where "
+    "rho/rho_shock < 1e-3 at its edge, and the tolerance is 0.2 where rho/rho_shock < 1e-2",
+    "'wherever smooth' is decided at the scale of the stencil: a point is judged for an equation only if the equation's terms computed with "
+    "two consecutive step sizes agree to tol/30; other points are counted (point_equations_not_smooth_at_stencil_scale)",
+    "the planar conservation laws (Riemann, EHEP) are normalised by the terms of the same law after the product rule, because both terms of "
+    "the conservation form vanish at a sonic point of a self-similar fan",
+    "a local PDE check cannot see a change that replaces one exact local solution by another (e.g. a fan centred elsewhere, a fan computed "
+    "with the other side's gamma together with its own energy): those break continuity/EOS/jump conditions (C02-C04)",
 ]
 
 K = {"quick": 1, "thorough": 2}
@@ -68,18 +78,29 @@ C_LIGHT = 2.997e10      # the constants the Coggeshall sources document
 A_RAD = 1.3720e+02
 LAZARUS = 0.750024322   # reduced oracle for the recorded Guderley time-unit finding (DESIGN.md 3.6)
 # Sedov tolerance bands (rho / rho_post-shock at the point >= bound, tolerance, label).  The solver documents that its standard
-# case loses accuracy at small radius; measured (thorough lattice): residual <= 3e-5 where rho/rho_2 >= 1e-2, growing to 4.5e-3
-# where 1e-3 <= rho/rho_2 < 1e-2, and the exactly linear interpolated core (rho/rho_2 < 1e-3, excluded) violates the equations by 0.56
-SEDOV_BANDS = [(1e-2, 1e-3, "rho/rho_shock>=1e-2"), (0.0, 1e-1, "rho/rho_shock<1e-2")]
+# case loses accuracy at small radius (double precision of the similarity variable).  Measured on the thorough lattice (K=2,
+# 3 times, 219 tasks): worst residual 3.9e-4 where rho/rho_2 >= 1e-2 (typically 1e-6..5e-5), 6.6e-3 (9.8e-3 with a looser
+# smoothness gate) where rho/rho_2 < 1e-2 outside the exactly linear interpolated core; the core itself (rho/rho_2 < 1e-3 at
+# its edge, excluded; extent 0.02..0.54 r_shock in the standard case) violates the equations by 0.56.
+# Tolerances = 25x / 20x the measured worst; the cached-shock-radius mutant gives 0.16 (momentum, outer band) and 1.0.
+SEDOV_BANDS = [(1e-2, 1e-2, "rho/rho_shock>=1e-2"), (0.0, 2e-1, "rho/rho_shock<1e-2")]
 
 # tolerance classes (DESIGN.md 4.1).  eta = rounding-noise allowance of one returned value (relative);
 # rsteps/tsteps = step sizes relative to the local length / time scale; cells = minimum steps in internal cells (class C)
-# Measured worst residuals of the correct code over the thorough lattice are noted next to each tolerance.
+# Worst residuals of the correct code MEASURED over the thorough lattice (K=2; 2090 tasks, 97 349 points, 301 803 point-equations;
+# defective solutions excluded, Cog13/17/20 measured on the patched scratch tree):
+#   A  tol1 = 1e-6 (first derivatives):  1.24e-8 (Cog21 momentum); smooth closed forms <= 4e-9, piecewise (Noh, Cog19-21, EHEP, IGEOS) <= 1.3e-8
+#      tol2 = 1e-5 (second derivatives): 2.7e-7 (Cog8 div F = 0), other flux-free solutions <= 4.3e-10, energy with flux (Cog10/14/16) <= 3.2e-10
+#   B  tol  = 1e-5 (Guderley, ODE rtol 5e-11): 9.4e-9 with the reduced oracle (4.0e-9 in user time on the unit-patched scratch tree)
+#   C  tol  = 1e-2 (GenEOS, 2001-point x grid, 501-point p table): 2.6e-4 (mass; 3.0e-4 with a looser smoothness gate), where the
+#      p table resolves the fan (p >= 33 dp; 8e-3 measured at p = 7 dp)
+#      Sedov: see SEDOV_BANDS
+# Residuals reported for the property-breaking changes tried (mutants/C01): 0.08..0.93 (class A), 0.21 (B), 0.16..1.0 (C).
 CLS = {
     "A": dict(eta=1e-14, tol1=1e-6, tol2=1e-5, rsteps=(4e-3, 1e-3, 2.5e-4), tsteps=(4e-3, 1e-3, 2.5e-4), cells=None),
     # B and C: steps in ratio 2 so that the three time stencils share their points (t +- k, 2k, 4k, 8k: 8 calls, not 12)
     "B": dict(eta=1e-10, tol1=1e-5, tol2=1e-5, rsteps=(8e-3, 4e-3, 2e-3), tsteps=(8e-3, 4e-3, 2e-3), cells=None),
-    "C": dict(eta=1e-8, tol1=3e-2, tol2=3e-2, rsteps=(1.6e-2, 8e-3, 4e-3), tsteps=(1.6e-2, 8e-3, 4e-3), cells=(32, 16, 8)),
+    "C": dict(eta=1e-8, tol1=1e-2, tol2=1e-2, rsteps=(1.6e-2, 8e-3, 4e-3), tsteps=(1.6e-2, 8e-3, 4e-3), cells=(32, 16, 8)),
 }
 
 # ----------------------------------------------------------------------------------------------------------------
